@@ -302,10 +302,16 @@ impl Manifest {
     /// Rollover the log.
     pub fn rollover(&mut self) -> Result<(), SError> {
         let edit = Self::to_edit(&self.strs, &self.info);
-        let next_id = self.last_rollover;
-        self.last_rollover += 1;
-        let back = BACKUP(&self.root, next_id);
-        self.poison(hard_link(MANIFEST(&self.root), back))?;
+        // NOTE:  A rollover that was interrupted after linking MANIFEST to its backup name, but
+        // before installing the new MANIFEST, leaves the newest backup naming this very file.
+        // Linking it again under the next number would put the same fragment into the chain twice
+        // (and the second copy does not start with the roll-up of the first).
+        if !self.poison(self.newest_backup_is_manifest())? {
+            let next_id = self.last_rollover;
+            self.last_rollover += 1;
+            let back = BACKUP(&self.root, next_id);
+            self.poison(hard_link(MANIFEST(&self.root), back))?;
+        }
         let tmp = TEMPORARY(&self.root);
         if tmp.exists() {
             self.poison(remove_file(&tmp))?
@@ -313,6 +319,20 @@ impl Manifest {
         self._apply(&tmp, edit, false)?;
         self.poison(rename(&tmp, MANIFEST(&self.root)))?;
         Ok(())
+    }
+
+    fn newest_backup_is_manifest(&self) -> Result<bool, std::io::Error> {
+        use std::os::unix::fs::MetadataExt;
+        if self.last_rollover <= 1 {
+            return Ok(false);
+        }
+        let back = BACKUP(&self.root, self.last_rollover - 1);
+        if !back.is_file() {
+            return Ok(false);
+        }
+        let back = metadata(back)?;
+        let mani = metadata(MANIFEST(&self.root))?;
+        Ok(back.dev() == mani.dev() && back.ino() == mani.ino())
     }
 
     /// Verify all known invariants of the manifest.
